@@ -11,11 +11,16 @@ additions that make it independent of how the fragment is factored:
   an expression statement that is a call of a stub method / rule-supplied callable is folded.
 * `func_callable` / `module_callables`: a FunctionDef of the analysed module as a callable that *interprets its body*
   (used for helpers a refactoring extracted, so that a rule sees through `x = helper(...)` without pinning the helper).
+* generator functions (round 4): a FunctionDef with `yield` / `yield from` becomes a callable returning a `GenObj`, a *lazy*
+  one-shot iterator - the body is interpreted up to the next `yield` each time the consumer asks for an element (a
+  comprehension, a `for` statement, `next()`), so that the interleaving of producer and consumer (a buffer that is yielded
+  and then cleared, a residue built as soon as its run is complete) is the one Python has.
 """
 from __future__ import annotations
 
 import ast
 import itertools
+import threading
 from typing import Any, Callable, Dict, Iterable, List, Optional, Sequence
 
 from sa.blockeval import BASE, BlockEval, Unknown, _Rewrite, _Stop
@@ -41,6 +46,68 @@ class Raised(Exception):
     def __init__(self, name: str, text: str = ""):
         super().__init__(text)
         self.name = name
+
+
+class GenObj:
+    """Lazy one-shot iterator over the values an interpreted generator body yields.  The body runs in a helper thread that is
+    strictly alternated with the consumer (one of the two is always blocked), so the evaluation stays sequential and
+    deterministic; exceptions of the body (Raised, Unknown, builtin errors) surface at the `next()` that reaches them."""
+
+    def __init__(self, start: Callable[[Callable[[Any], None]], None], name: str = "generator"):
+        self._start, self._name = start, name
+        self._thread: Optional[threading.Thread] = None
+        self._to_gen, self._to_con = threading.Semaphore(0), threading.Semaphore(0)
+        self._item: Any = None
+        self._exc: Optional[BaseException] = None
+        self._done = False
+
+    def __repr__(self) -> str:
+        return f"<generator {self._name}>"
+
+    def __iter__(self):
+        return self
+
+    def __next__(self):
+        if self._done:
+            raise StopIteration
+        if self._thread is None:
+            self._thread = threading.Thread(target=self._run, daemon=True)
+            self._thread.start()
+        else:
+            self._to_gen.release()
+        self._to_con.acquire()
+        if self._exc is not None:
+            ex, self._exc = self._exc, None
+            raise ex
+        if self._done:
+            raise StopIteration
+        return self._item
+
+    def _run(self) -> None:
+        try:
+            self._start(self._yield)
+        except BaseException as ex:  # handed to the consumer
+            self._exc = ex
+        self._done = True
+        self._to_con.release()
+
+    def _yield(self, v: Any) -> None:
+        self._item = v
+        self._to_con.release()
+        self._to_gen.acquire()
+
+
+def is_generator_def(fdef: ast.AST) -> bool:
+    """`yield` / `yield from` in the body of the function itself (not of a nested def / lambda)."""
+    stack = list(getattr(fdef, "body", []))
+    while stack:
+        n = stack.pop()
+        if isinstance(n, (ast.Yield, ast.YieldFrom)):
+            return True
+        if isinstance(n, (ast.FunctionDef, ast.AsyncFunctionDef, ast.Lambda, ast.ClassDef)):
+            continue
+        stack.extend(ast.iter_child_nodes(n))
+    return False
 
 
 def _groupby(it: Iterable[Any], key: Optional[Callable] = None):
@@ -123,6 +190,8 @@ Folder2._f_GeneratorExp = _gen  # a generator expression is a one-shot iterator 
 
 
 class BlockEval2(BlockEval):
+    yield_fn: Optional[Callable[[Any], None]] = None  # set by func_callable when the interpreted body is a generator
+
     def fold(self, e: ast.AST) -> Any:
         import copy
 
@@ -142,6 +211,31 @@ class BlockEval2(BlockEval):
                 t = st.exc.func if isinstance(st.exc, ast.Call) else st.exc
                 name = ast.unparse(t).split(".")[-1]
             raise Raised(name, ast.unparse(st)[:80])
+        if isinstance(st, ast.Expr) and isinstance(st.value, (ast.Yield, ast.YieldFrom)):
+            if self.yield_fn is None:
+                raise Unknown("yield outside an interpreted generator function")
+            if isinstance(st.value, ast.Yield):
+                self.yield_fn(self.fold(st.value.value) if st.value.value is not None else None)
+            else:
+                for v in self.fold(st.value.value):
+                    self.yield_fn(v)
+            return
+        if isinstance(st, ast.For):
+            it = self.fold(st.iter)
+            # a generator is consumed lazily (the body runs between two steps of the producer); anything else as in the base class
+            for item in it if isinstance(it, GenObj) else list(it):
+                self._assign(st.target, item)
+                try:
+                    self._block(st.body)
+                except _Stop as s:
+                    if s.kind == "continue":
+                        continue
+                    if s.kind == "break":
+                        break
+                    raise
+            else:
+                self._block(st.orelse)
+            return
         if isinstance(st, ast.Expr) and isinstance(st.value, ast.Call):
             c = st.value
             try:
@@ -220,6 +314,7 @@ def func_callable(repo, module: str, fdef: ast.FunctionDef, outer: Optional[Dict
     params = [p.arg for p in a.args]
     kwonly = [p.arg for p in a.kwonlyargs]
     body = [s for s in fdef.body if not (isinstance(s, ast.Expr) and isinstance(s.value, ast.Constant))]
+    generator = is_generator_def(fdef)
 
     def call(*vals, **kw):
         env: Dict[str, Any] = dict(outer) if outer is not None else {}
@@ -241,6 +336,17 @@ def func_callable(repo, module: str, fdef: ast.FunctionDef, outer: Optional[Dict
                 bound[p] = BlockEval2(repo, module, env).fold(defaults[p])
         env.update(bound)
         ev = BlockEval2(repo, module, env, max_steps=max_steps)
+        if generator:
+
+            def start(yield_fn):
+                ev.yield_fn = yield_fn
+                kind, val = ev.run(body)
+                if kind == "raise":
+                    raise Raised(val, f"{fdef.name} raises {val}")
+                if kind not in ("return", "fall"):
+                    raise Unknown(f"{fdef.name} ends with {kind}")
+
+            return GenObj(start, fdef.name)
         kind, val = ev.run(body)
         if kind == "raise":
             raise Raised(val, f"{fdef.name} raises {val}")
